@@ -149,7 +149,7 @@ structure Opened where
   spw : SpW
   dumpBase : List Nat       -- stored dump index behind each dump of the opened data set
   chanBase : List Nat       -- stored channel index behind each channel
-  deriving Repr, Inhabited
+  deriving DecidableEq, Repr, Inhabited
 
 def fullSlice : PreVal := .slice none none none
 
@@ -224,5 +224,53 @@ def Opened.observe (o : Opened) (sd sc : Option Ix) : Except Err Obs := do
          freqs := kc.map o.spw.freq,
          dumpPos := kd.map fun i => o.dumpBase.getD i 0,
          chanPos := kc.map fun k => o.chanBase.getD k 0 }
+
+/-! ## Spec side: the closed forms the documentation promises -/
+
+/-- centre of the whole band (spec): for an even channel count the centre frequency is the centre of
+    channel `n/2`, half a channel beyond the middle of the band -/
+def bandCentre (w : SpW) : Rat :=
+  if w.n % 2 = 0 then w.centre - (w.sideband : Rat) * w.width / 2 else w.centre
+
+/-- the range `[lo, hi)` picked by an optional unit-step preselect slice on an axis of length `n`
+    (spec side: `slice.indices(n)`) -/
+def selRange (n : Nat) : Option PreVal → Nat × Nat
+  | none => (0, n)
+  | some (.slice a b c) =>
+    match sliceIndices n a b c with
+    | some (s, e, _) => (s.toNat, e.toNat)
+    | none => (0, 0)
+  | some .other => (0, 0)
+
+/-- mid-point of stored dump `i` before any shift -/
+def rawT (c : Cfg) (i : Nat) : Rat := (c.sync + c.first) + (i : Rat) * c.intTime
+
+/-- the whole-band spectral window of a v4 data set -/
+def spwWhole (c : Cfg) : SpW := SpW.new c.centre (c.bandwidth / (c.F : Rat)) c.F 1 none
+
+/-- a preselect value handed to `select` instead -/
+def toIx : Option PreVal → Option Ix
+  | some (.slice a b c) => some (.slice a b c)
+  | _ => none
+
+/-- what the property promises for "open with `p`, then `select(dumps=sd, channels=sc)`":
+    open the *whole* data set (workaround decided on the first dump of the capture), select the
+    same ranges, and interpret `sd`/`sc` relative to those ranges.  Returns the observables plus
+    `(time_offset, start_time, end_time)` of the opened (preselected) data set. -/
+def specObserve (c : Cfg) (p : Preselect) (sd sc : Option Ix) : Except Err (Obs × Rat × Rat × Rat) := do
+  validatePreselect p
+  let (lo, hi) := selRange c.T p.dumps
+  let (clo, chi) := selRange c.F p.channels
+  let kd ← keepPositions (hi - lo) sd
+  let kc ← keepPositions (chi - clo) sc
+  let before := decide (rawT c 0 + c.timeOffset < fixDate c.d1 c.d2 c.d3 c.cmc2 c.cbf4k)
+  let off := c.timeOffset - (if before then c.cbf.getD 0 else 0)
+  let obs : Obs :=
+    { ts := kd.map fun i => rawT c (lo + i) + off,
+      freqs := kc.map fun k => c.centre
+        + (((clo + k : Nat) : Rat) - ((c.F / 2 : Nat) : Rat)) * c.bandwidth / (c.F : Rat),
+      dumpPos := kd.map (lo + ·),
+      chanPos := kc.map (clo + ·) }
+  pure (obs, off, rawT c lo + off - c.intTime / 2, rawT c (hi - 1) + off + c.intTime / 2)
 
 end TimeFreq
